@@ -143,6 +143,19 @@ def protocol(sess, suite, thorough):
         for name, m in (("honest", cm), ("empty", {}), ("identity-hiding", pkgs["identity-hiding"])):
             guarded(sess, "randomizer %s seed=%s comms=%s" % (suite, seed, cstr(m)), "randomizer:seedlen%d/%s" % (sl, name))
             guarded(sess, "rand_sign %s msg=%s comms=%s nonces=%s kp=%s seed=%s" % (suite, msg, cstr(m), nonces[me], kps[me], seed), "rand_sign:seedlen%d/%s" % (sl, name))
+    # the coordinator's side: aggregation with randomized parameters over every kind of public key package a peer or an old
+    # store can supply (a legacy package has NO recorded threshold — seeded change C14r6-1 unwrapped it while randomizing)
+    rr_ = fld.enc(0x1234567)
+    rpkps = {"honest": pkp, "legacy": mk_pkp(pk["vshares"], pk["vk"], None), "min0": mk_pkp(pk["vshares"], pk["vk"], 0),
+             "min65535": mk_pkp(pk["vshares"], pk["vk"], 65535), "no-vshares": mk_pkp({}, pk["vk"], 2),
+             "one-vshare": mk_pkp({me: pk["vshares"][me]}, pk["vk"], None), "vk=vshare": mk_pkp(pk["vshares"], pk["vshares"][me], 2)}
+    for pn, pp in rpkps.items():
+        for sn, sm in (("honest", zs), ("empty", {}), ("one", {me: zs[me]})):
+            for mode in ("first", "all", "disabled"):
+                if thin and (sn == "one" or (mode == "all" and pn not in ("legacy", "honest"))):
+                    continue
+                guarded(sess, "rand_aggregate %s msg=%s comms=%s shares=%s pkp=%s mode=%s r=%s" % (suite, msg, cstr(cm), shares_str(sm), pp, mode, rr_),
+                        "rand_aggregate:%s/%s" % (pn, sn))
     # ---------------- dealer shares
     s0 = ss_fields(shares[0])
     if suite in TOY_SUITES or (thorough and suite == "ristretto255"):
